@@ -29,12 +29,16 @@ func init() { core.Register(P{}) }
 
 func (P) ID() string { return "C10" }
 func (P) Rule() string {
-	return "case = one real relay session (raw h2 client over net.Pipe <-> h2.Config.Proxy <-> raw h2 TLS server) brought into a state " +
-		"(idle | mid-stream on 1-4 streams | DATA queued behind a zero stream window in either direction, optionally partly released | " +
-		"s2c output channel full behind a client that stopped reading, optionally combined with queued DATA) followed by one terminating " +
-		"event (client EOF, server EOF, write failure toward the client noticed by the s2c reader / the s2c writer / the c2s reader, server " +
-		"reset + write toward it, malformed frame or bad HPACK from either side, proxy closing) and optional trailing traffic; distinct by " +
-		"hash of the op list; non-trivial when the case has a terminating event and the finish line was produced after Proxy was given the bound"
+	return "case = one real Config.Proxy call (raw h2 client over net.Pipe <-> h2.Config.Proxy <-> raw h2 TLS server, or a server that refuses / " +
+		"fails the TLS handshake) that either ends before the relays exist (dial refused, TLS failing, client preface eof / short / wrong / " +
+		"dribbled, server gone before the preface write, closing before the preface, any event around the first SETTINGS) or is brought into a " +
+		"state (idle | mid-stream on 1-4 streams | DATA queued behind a closed stream window - announced zero or exhausted 65535 - in either " +
+		"direction, 1-30 or 61-300 frames, optionally partly released | s2c output channel full behind a client that stopped reading, optionally " +
+		"with queued DATA | destMu of the s2c relay held inside a blocked write by the s2c reader (PING / SETTINGS / ack / GOAWAY), the c2s " +
+		"reader (window acknowledgement) or the s2c writer, with the other users waiting for it) followed by one terminating event (client EOF, " +
+		"server EOF, write failure toward the client noticed by the s2c reader / the s2c writer / the c2s reader, also of the blocked write, " +
+		"server reset + write toward it, malformed frame or bad HPACK from either side, proxy closing) and optional trailing traffic; distinct " +
+		"by hash of the op list; non-trivial when the case has a terminating event and the finish line was produced after Proxy was given the bound"
 }
 
 func (P) Nontrivial(ops []string, impl []string) bool {
@@ -653,5 +657,12 @@ func (e *ex) finish() core.Result {
 	} else {
 		core.Count("verdict:" + v.sig)
 	}
-	return core.Result{Impl: v.obs, Fail: v.fail, Sig: v.sig}
+	res := core.Result{Impl: v.obs, Fail: v.fail, Sig: v.sig}
+	if isRace(e.hist) && v.returned {
+		// the schedule pinned by the `hint` ops (the F10c race) did not happen in this run: the model's
+		// prediction is about another schedule and is not compared; the oracle above still holds
+		core.Count("race_missed")
+		res.ModelOp = "finish missed-race"
+	}
+	return res
 }
